@@ -15,7 +15,11 @@ RULE = ("statistical acceptance test on the lattice model (symmetric random "
         "(interfaces 3-6, move assignment in {sh,wf}^ensembles stratified "
         "over all-sh / all-wf / mixed incl. wf in [0+], interface_cap absent "
         "or at an interface above every wf ensemble, workers 1..ensembles-1, "
-        "completion-order adversary). Per configuration R independent "
+        "completion-order adversary). Every run also has a configuration "
+        "with wire fencing in [0+] only and the cap at the next interface on "
+        "an axis shifted so that the cap is exactly 0.0, and an all-shooting "
+        "restart chain (every replica stopped and restarted every 2-3 "
+        "steps). Per configuration R independent "
         "replicas (different seeds, the real scheduler() in the rig; a third "
         "of them stopped and restarted or killed with jobs in flight) are "
         "run; per replica and plus-ensemble j the estimate is sum(frac_j/w_j "
